@@ -87,6 +87,7 @@ func c15SelSet(ss ...[]string) string {
 }
 
 func c15Gen(r *rng, n int, w *bufio.Writer) {
+	bReseed(r)
 	for i := 0; i < n; {
 		nLists := 1 + r.n(2)
 		nLines := 1 + r.n(12)
